@@ -44,11 +44,23 @@ WITNESSES = [
 ]
 
 
+for _m, _t in nc.POWTERM_WITNESSES:  # integer powers of single-term forms: through x**k and through from_expr
+    WITNESSES.append(dict(modes=_m, tree=_t, grid=[[0], [1], [2], [3]] if _m == ["B"] else [[-2], [0], [1], [3]], kind="witness"))
+    WITNESSES.append(dict(modes=_m, tree=_t, grid=[[0], [1], [2], [3]] if _m == ["B"] else [[-2], [0], [1], [3]], kind="whole"))
+
+
 def gen_case(rng, kind=None):
     modes = nc.rand_modes(rng)
     kind = kind or rng.choice(
-        ["mul", "mul", "fermi", "fermi", "assocL", "assocR", "sum", "adj", "pow", "mulsum", "whole", "whole", "roundtrip"]
+        ["mul", "mul", "fermi", "fermi", "assocL", "assocR", "sum", "adj", "pow", "powterm", "powterm", "mulsum", "whole", "whole", "roundtrip"]
     )
+    if kind == "powterm":
+        # x**k of a single-term form with a number-dependent coefficient, half of them through from_expr of the
+        # sympy Pow with a compound base (kind "whole")
+        modes, t = nc.rand_powterm(rng)
+        if rng.random() < 0.3:
+            t = ["mul", t, nc.rand_word(rng, modes, 1)]
+        return dict(modes=modes, tree=t, grid=nc.rand_grid(rng, modes, 5), kind="powterm" if rng.random() < 0.5 else "whole")
     if kind == "fermi":
         # several fermionic modes, right factor with >= 2 operators (the order of the annihilation pass and
         # the preceding_fermions counting only matter here)
